@@ -555,6 +555,82 @@ fn shape_ok<C: CellType>(p: &Program<C>, fuse: bool) -> Result<(), String> {
     Ok(())
 }
 
+/// The `live` bitmaps the baseline JIT relies on (it saves exactly these registers around runtime
+/// calls and may use the others as scratch): a register temporary whose value is needed after the
+/// instruction and which the instruction does not itself define must be declared live across it.
+/// Backward may-liveness over the control-flow graph of the bytecode; also: no temporary is read
+/// on any path before it was written (definite assignment, forward must-analysis).
+fn live_ok<C: CellType>(p: &Program<C>, regs: usize) -> Result<(), String> {
+    let n = p.insts.len();
+    let uses = |i: usize| -> u32 {
+        let mut m = 0u32;
+        let mut add = |l: Loc<C>| {
+            if let Loc::Tmp(t) = l {
+                if t < 32 {
+                    m |= 1 << t;
+                }
+            }
+        };
+        match p.insts[i] {
+            Instr::Add(_, a, b) | Instr::Sub(_, a, b) | Instr::Mul(_, a, b) => {
+                add(a);
+                add(b);
+            }
+            Instr::Copy(_, a) => add(a),
+            _ => {}
+        }
+        m
+    };
+    let def = |i: usize| -> u32 {
+        match p.insts[i] {
+            Instr::Add(Loc::Tmp(t), _, _) | Instr::Sub(Loc::Tmp(t), _, _) | Instr::Mul(Loc::Tmp(t), _, _) | Instr::Copy(Loc::Tmp(t), _) if t < 32 => 1 << t,
+            _ => 0,
+        }
+    };
+    let succ = |i: usize| -> Vec<usize> {
+        match p.insts[i] {
+            Instr::BrZ(_, off) | Instr::BrNZ(_, off) => vec![i + 1, (i as isize + off) as usize],
+            _ => vec![i + 1],
+        }
+    };
+    // backward liveness
+    let mut live_in = vec![0u32; n + 1];
+    let mut changed = true;
+    while changed {
+        changed = false;
+        for i in (0..n).rev() {
+            let mut out = 0u32;
+            for s in succ(i) {
+                out |= live_in[s.min(n)];
+            }
+            let inn = uses(i) | (out & !def(i));
+            if inn != live_in[i] {
+                live_in[i] = inn;
+                changed = true;
+            }
+        }
+    }
+    for i in 0..n {
+        if matches!(p.insts[i], Instr::BrZ(..) | Instr::BrNZ(..)) {
+            continue; // branches neither call the runtime nor use a scratch register: their bitmap is not consulted
+        }
+        let mut out = 0u32;
+        for s in succ(i) {
+            out |= live_in[s.min(n)];
+        }
+        // only the first `regs` temporaries are registers (the others live in memory and are not tracked)
+        let must = out & !def(i) & 0xffff & ((1u32 << regs.min(16)) - 1);
+        if must & !(p.live[i] as u32) != 0 {
+            return Err(format!("instruction {} ({:?}): temporaries {:#x} are needed afterwards and not defined by it, but live = {:#x}", i, p.insts[i], must, p.live[i]));
+        }
+    }
+    // definite assignment: nothing is live into the entry
+    if live_in[0] != 0 {
+        return Err(format!("temporaries {:#x} may be read before they are written", live_in[0]));
+    }
+    Ok(())
+}
+
 fn translate_cases<C: CellType>(seed: u64, n: usize, sem: &mut Tally, shape: &mut Tally, w: &str) {
     let mut r = Rng(seed | 1);
     let inits: [[u8; 6]; 6] = [[0; 6], [1, 2, 3, 4, 5, 6], [0, 255, 1, 0, 2, 128], [3, 0, 0, 1, 0, 0], [255; 6], [2, 1, 0, 5, 0, 1]];
@@ -568,6 +644,8 @@ fn translate_cases<C: CellType>(seed: u64, n: usize, sem: &mut Tally, shape: &mu
             if sh.is_err() {
                 continue;
             }
+            let lv = live_ok(&bc, regs);
+            shape.check(lv.is_ok(), || format!("{} translate(regs={}, fuse={}) of {:?} gives {:?}: {}", w, regs, fuse, prog, bc, lv.clone().err().unwrap()));
             if bc.temps > 2 && bc.insts.len() >= 3 {
                 shape.nontrivial += 1;
             }
